@@ -49,6 +49,10 @@ def run(ctx):
         ctx.violation("C15:crash", "rate-limited run crashed: %s" % ce[1]["text"], replay={"output": o[-20000:]})
         return
     events = vf.read_ndjson(out)
+    held = [e for e in events if e.get("stallUs", 0) > 10000]
+    if held:
+        ctx.notes.append("%d of %d timed runs were held up for more than 10 ms in each of three attempts (the harness's own sleeper overslept): "
+                         "their spacing is not judged: %s" % (len(held), len(events), [(e["rate"], e["path"], e["stallUs"]) for e in held]))
     ctx.cov["traces_validated_against_impl"] += len(events)
     ctx.count(len(events), [("rate", e["rate"], e["path"], e["workers"]) for e in events])
     rest = events
